@@ -61,9 +61,15 @@ func (a *AvahiProvider) Start(autoReconnect bool, cb api.MdnsResolveCB) bool {
 	a.mux.Lock()
 	defer a.mux.Unlock()
 
+	a.manualShutdown = false
+
+	return a.start(autoReconnect, cb)
+}
+
+// connect to the avahi daemon and start browsing, a.mux has to be held by the caller
+func (a *AvahiProvider) start(autoReconnect bool, cb api.MdnsResolveCB) bool {
 	a.autoReconnect = autoReconnect
 	a.resolveCB = cb
-	a.manualShutdown = false
 
 	err := a.avServer.Setup(a.avahiCallback)
 	if err != nil {
@@ -248,14 +254,21 @@ func (a *AvahiProvider) attemptReconnect(cb api.MdnsResolveCB) {
 
 		<-time.After(time.Second)
 
-		if !a.Start(true, cb) {
+		a.mux.Lock()
+		// a shutdown while waiting is final, do not undo it
+		if a.manualShutdown {
+			a.mux.Unlock()
+			return
+		}
+
+		if !a.start(true, cb) {
+			a.mux.Unlock()
 			continue
 		}
 
 		logging.Log().Debug("mdns: avahi - reconnected")
 
 		// announce what is requested now, not what was announced when the connection got lost
-		a.mux.Lock()
 		if serviceData := a.mdnsServiceData; serviceData != nil {
 			if err := a.announce(serviceData.Name, serviceData.Port, serviceData.Txt); err != nil {
 				logging.Log().Debug("mdns: avahi - error re-announcing service:", err)
